@@ -7,10 +7,9 @@ import (
 
 // files derives the file set from the description: page.vuego and one file per component.
 func files(c Case) map[string]string {
-	out := map[string]string{"page.vuego": emit(c.Page, c.Compact, c.Short) + emitHand(c)}
+	out := map[string]string{"page.vuego": emitPage(c)}
 	if c.After != "" {
-		f := failingVariant(c)
-		out["page_fail.vuego"] = emit(f.Page, f.Compact, f.Short) + emitHand(f)
+		out["page_fail.vuego"] = emitPage(failingVariant(c))
 	}
 	if len(c.Layout) > 0 {
 		out["layouts/base.vuego"] = emit(c.Layout, c.Compact, c.Short)
@@ -41,17 +40,47 @@ func files(c Case) map[string]string {
 // emitHand writes the page-level slot templates.
 func emitHand(c Case) string {
 	var b strings.Builder
-	w := &writer{b: &b, compact: c.Compact, short: c.Short}
+	w := &writer{b: &b, compact: c.Compact, short: c.Short, proc: c.Proc}
 	for _, s := range c.Hand {
 		w.nl(0)
-		b.WriteString("<template " + supAttr(s) + ">")
-		w.nodes(s.Kids, 1)
-		if len(s.Kids) > 0 {
-			w.nl(0)
-		}
-		b.WriteString("</template>")
+		w.supply(s, 0)
 	}
 	return b.String()
+}
+
+// emitPage writes the page file (the only file a registered NodeProcessor pre-processes).
+func emitPage(c Case) string {
+	var b strings.Builder
+	w := &writer{b: &b, compact: c.Compact, short: c.Short, proc: c.Proc}
+	w.nodes(c.Page, 0)
+	return b.String() + emitHand(c)
+}
+
+// supply writes one slot template; with proc as <x-slot name=".." [short] [bind=".."]>.
+func (w *writer) supply(s Supply, depth int) {
+	open, closeTag := "<template "+supAttr(s)+">", "</template>"
+	if w.proc {
+		open = "<x-slot"
+		if s.Name != "" {
+			open += fmt.Sprintf(` name="%s"`, s.Name)
+		}
+		if s.Form == "short" {
+			open += " short"
+		}
+		switch {
+		case s.Var != "":
+			open += fmt.Sprintf(` bind="%s"`, s.Var)
+		case len(s.Destr) > 0:
+			open += fmt.Sprintf(` bind="%s"`, pattern(s.Destr, s.WS))
+		}
+		open, closeTag = open+">", "</x-slot>"
+	}
+	w.b.WriteString(open)
+	w.nodes(s.Kids, depth+1)
+	if len(s.Kids) > 0 {
+		w.nl(depth)
+	}
+	w.b.WriteString(closeTag)
 }
 
 func emit(nodes []Node, compact, short bool) string {
@@ -65,6 +94,7 @@ type writer struct {
 	b       *strings.Builder
 	compact bool
 	short   bool
+	proc    bool // page written with <x-inc> / <x-slot>, rewritten by a registered NodeProcessor
 }
 
 // shortTag is the documented mapping: components/KOne.vuego -> <k-one>.
@@ -174,7 +204,10 @@ func (w *writer) node(n Node, depth int) {
 	case "inc":
 		w.nl(depth)
 		closeTag := "</template>"
-		if w.short {
+		if w.proc {
+			fmt.Fprintf(w.b, `<x-inc src="%s"`, n.Comp)
+			closeTag = "</x-inc>"
+		} else if w.short {
 			fmt.Fprintf(w.b, `<%s`, shortTag(n.Comp))
 			closeTag = "</" + shortTag(n.Comp) + ">"
 		} else {
@@ -189,12 +222,7 @@ func (w *writer) node(n Node, depth int) {
 		w.b.WriteString(">")
 		for _, s := range n.Sup {
 			w.nl(depth + 1)
-			w.b.WriteString("<template " + supAttr(s) + ">")
-			w.nodes(s.Kids, depth+2)
-			if len(s.Kids) > 0 {
-				w.nl(depth + 1)
-			}
-			w.b.WriteString("</template>")
+			w.supply(s, depth+1)
 		}
 		w.nodes(n.Kids, depth+1)
 		if len(n.Sup)+len(n.Kids) > 0 {
